@@ -110,7 +110,7 @@ class C15(Prop):
             'it; nothing asserted when CPython rejects. Generated (str): separator-heavy strings; oracle: character-scanning reference '
             'splitter for both keepends values, len>=1, join == input, len(split_lines(s)) == parse(s).end_pos[0]. Non-trivial: bytes '
             'with "coding" in the first two lines, a BOM or a non-UTF-8 byte; strings with a non-Python separator.')
-    budgets = {'quick': 40000, 'thorough': 1000000}
+    budgets = {'quick': 40000, 'thorough': 4000000}
 
     def strategy(self, tier):
         return st.one_of(
